@@ -23,13 +23,13 @@ func init() { verifChecks["C18"] = checkC18 }
 
 // disk levels
 const (
-	dNcLo = iota // nc - eps
-	dNc          // nc
-	dNcHi        // nc + eps
-	dCLo         // c - eps
-	dC           // c
-	dOver        // > 100 %
-	dMissing     // no disk report
+	dNcLo    = iota // nc - eps
+	dNc             // nc
+	dNcHi           // nc + eps
+	dCLo            // c - eps
+	dC              // c
+	dOver           // > 100 %
+	dMissing        // no disk report
 	// replica-only kinds
 	rNotRunning
 	rNotSemi
@@ -38,8 +38,8 @@ const (
 var c18LevelNames = []string{"nc-e", "nc", "nc+e", "c-e", "c", ">100%", "missing", "not-running", "not-semisync"}
 
 type c18Thr struct {
-	Name   string
-	C, NC  string // yaml values ("" = unset)
+	Name    string
+	C, NC   string // yaml values ("" = unset)
 	Cv, NCv float64
 }
 
